@@ -86,6 +86,18 @@ func (c *gctl) arrive(name string, info map[string]interface{}) gateResp {
 	return <-a.release
 }
 
+// clientGates: which gate controller a client's verif hook (stun.SetVerifGate) reports to. The hook makes the entry
+// of Client.start - the client-table registration, a critical section no injected interface can see - a gate.
+var clientGates sync.Map // *stun.Client -> *gctl
+
+func init() {
+	stun.SetVerifGate(func(c *stun.Client, name string) {
+		if g, ok := clientGates.Load(c); ok {
+			g.(*gctl).arrive(name, nil)
+		}
+	})
+}
+
 // ---- injected pieces ----
 
 var errInjectedWrite = errors.New("injected write failure")
@@ -141,6 +153,7 @@ func (g *gConn) Read(b []byte) (int, error) {
 			g.c.log(map[string]interface{}{"k": "read_ret", "p": g.c.procName(), "n": n, "id": idOfRaw(d), "raw": ints(d[:n])})
 			return n, nil
 		case <-g.closeCh:
+			time.Sleep(100 * time.Microsecond) // the reader loops on this error until Close is through
 			return 0, io.EOF
 		}
 	}
@@ -227,21 +240,30 @@ func (g *gCollector) Start(_ time.Duration, f func(now time.Time)) error {
 
 func (g *gCollector) Close() error {
 	g.c.arrive("collector.Close", nil)
-	// like tickerCollector: signal, then wait for the goroutine
-	g.c.mu.Lock()
-	free := g.c.free
-	a := g.c.parked["CL"]
-	g.c.mu.Unlock()
-	if free {
-		g.once.Do(func() { close(g.stop) })
-	} else if a != nil && a.name == "cl.idle" {
+	// like tickerCollector: signal, then wait for the goroutine. The collector goroutine may be busy when Close is
+	// called (only off the model's behaviours: the model has Close wait here until it is idle), and the run may
+	// switch to free running meanwhile: keep signalling until the goroutine is gone.
+	for {
 		g.c.mu.Lock()
-		delete(g.c.parked, "CL")
+		free := g.c.free
+		a := g.c.parked["CL"]
+		if !free && a != nil && a.name == "cl.idle" {
+			delete(g.c.parked, "CL")
+		} else {
+			a = nil
+		}
 		g.c.mu.Unlock()
-		a.release <- gateResp{stop: true}
+		if free {
+			g.once.Do(func() { close(g.stop) })
+		} else if a != nil {
+			a.release <- gateResp{stop: true}
+		}
+		select {
+		case <-g.done:
+			return nil
+		case <-time.After(500 * time.Microsecond):
+		}
 	}
-	<-g.done
-	return nil
 }
 
 // gAgent delegates to a real Agent; every method entry and the wrapped handler's entry/exit are gates.
@@ -252,6 +274,7 @@ type gAgent struct {
 }
 
 func (g *gAgent) Start(id [stun.TransactionIDSize]byte, d time.Time) error {
+	g.c.log(map[string]interface{}{"k": "agstart", "p": g.c.procName(), "id": idIndex(id)})
 	g.c.arrive("agent.Start", nil)
 	return g.a.Start(id, d)
 }
